@@ -352,6 +352,9 @@ class Measurement:
     mutated: List[str]
     out: Any = None
     ref: Any = None
+    bwd_abs1: Dict[str, float] = field(default_factory=dict)   # max |grad - 1*ref_grad|
+    up_max: float = 0.0
+    in_rms: float = 1.0
 
 
 def measure(U: Any, case: OpCase, data_seed: int, up_seed: int, dtype: torch.dtype = torch.float64,
@@ -365,6 +368,8 @@ def measure(U: Any, case: OpCase, data_seed: int, up_seed: int, dtype: torch.dty
     a, res = fit(out, ref)
     bwd: Dict[str, float] = {}
     bres: Dict[str, float] = {}
+    babs1: Dict[str, float] = {}
+    up_max = 0.0
     if want_grads and case.diff:
         gref = call_ref(case, tr, rs, sum_losses=sum_losses_for_grad) if case.op in ("cross_entropy", "mse_loss") else ref
         gu = torch.Generator().manual_seed(up_seed * 7919 + 104729)   # never the data stream's seed
@@ -376,10 +381,15 @@ def measure(U: Any, case: OpCase, data_seed: int, up_seed: int, dtype: torch.dty
                 bwd[n], bres[n] = float("nan"), 0.0 if (x is None and y is None) else 1.0
                 continue
             bwd[n], bres[n] = fit(x, y)
+            babs1[n] = float((x.detach().double() - y.detach().double()).abs().max()) if x.numel() else 0.0
+        up_max = float(up.abs().max()) if up.numel() else 0.0
     mutated = [k for k, (v, ver) in snap.items()
                if ti[k]._version != ver or not torch.equal(ti[k].detach(), v)]
+    first = next(iter(case.shapes))
+    xin = base[first].double() if isinstance(base.get(first), torch.Tensor) and base[first].is_floating_point() else None
+    in_rms = float(xin.pow(2).mean().sqrt()) if xin is not None and xin.numel() else 1.0
     return Measurement(a, res, bwd, bres, tuple(out.shape), tuple(ref.shape), out.dtype, ref.dtype, mutated,
-                       out.detach(), ref.detach())
+                       out.detach(), ref.detach(), babs1, up_max, in_rms)
 
 
 # ------------------------------------------------------------------------------ model requests
